@@ -31,6 +31,12 @@
 #include <locale.h>
 #include <wctype.h>
 #include "libzvbi.h"
+#include "ure.h"            /* internal: only to attribute a miss to the matcher (see matcher_misses_page) */
+
+/* 1: the generator keeps rows free of 8+ digit numbers (see gen_text) */
+#ifndef C17_AVOID_KEYWORD_DIGIT_OVERFLOW
+#define C17_AVOID_KEYWORD_DIGIT_OVERFLOW 1
+#endif
 
 /* ------------------------------------------------------------------ */
 /* Teletext packetiser                                                 */
@@ -591,15 +597,18 @@ static void gen_text(struct vf_rng *r, struct txpage *p, int rich)
 		if (rich && vf_chance(r, 1, 6))
 			d[vf_range(r, 0, 39)] = (uint8_t)vf_range(r, 1, 7);  /* colour attribute (a space) */
 	}
-	/* keyword() in teletext.c overflows an int on runs of 8+ digits (not our
-	 * property): keep digit runs short */
+	/* keyword() in teletext.c (page number links) overflows an int on runs of 8+
+	 * digits - a defect outside this property (C01).  Double width text hides
+	 * every other cell, which joins digits that are apart in the packet, so the
+	 * number of digits per row is limited, not the length of a run. */
+#if C17_AVOID_KEYWORD_DIGIT_OVERFLOW
 	for (k = 1; k <= 24; k++) {
-		int run = 0;
-		for (i = 0; i < 40; i++) {
-			if (p->rows[k][i] >= '0' && p->rows[k][i] <= '9') { if (++run > 6) { p->rows[k][i] = 0x20; run = 0; } }
-			else run = 0;
-		}
+		int digits = 0;
+		for (i = 0; i < 40; i++)
+			if (p->rows[k][i] >= '0' && p->rows[k][i] <= '9' && ++digits > 6)
+				p->rows[k][i] = 0x20;
 	}
+#endif
 	for (i = 0; i < 8; i++)
 		p->clock[i] = vf_chance(r, 1, 2) ? blank_clock[i] : alpha_raw[vf_below(r, (unsigned)n_alpha_raw)];
 }
@@ -792,6 +801,7 @@ static unsigned start_key(int pgno, int subno, int dir)
 /* Matching pages in the order a pass from `key` must return them.
  * forward: first page is the first with key >= start; backward: the start page
  * is the last one to visit, i.e. the first is the last with key < start. */
+#define EXP_MATCH(j, hk) ((hk) == 2 ? (db[j].match[0] || db[j].match[1]) : db[j].match[hk])
 static int expected_order(int hk, unsigned key, int dir, int skip, int *out)
 {
 	int i, n = 0, first;
@@ -800,14 +810,14 @@ static int expected_order(int hk, unsigned key, int dir, int skip, int *out)
 		for (first = 0; first < n_db && db[first].key < key; first++) ;
 		for (i = 0; i < n_db; i++) {
 			int j = (first + i) % n_db;
-			if (db[j].match[hk] && j != skip) out[n++] = j;
+			if (EXP_MATCH(j, hk) && j != skip) out[n++] = j;
 		}
 	} else {
 		for (first = n_db - 1; first >= 0 && db[first].key >= key; first--) ;
 		if (first < 0) first = n_db - 1;
 		for (i = 0; i < n_db; i++) {
 			int j = ((first - i) % n_db + n_db) % n_db;
-			if (db[j].match[hk] && j != skip) out[n++] = j;
+			if (EXP_MATCH(j, hk) && j != skip) out[n++] = j;
 		}
 	}
 	return n;
@@ -891,8 +901,8 @@ static int check_highlight(const vbi_page *pg, const struct dbpage *d, const str
 }
 
 /* Is the page reached and found when we search for the very text the reference
- * matcher found in it, as a literal, starting at that page?  Separates faults of
- * the regular expression matcher from faults of the page walk. */
+ * matcher found in it, as a literal, starting at that page?  (The page, its
+ * text and the start of the walk are intact.) */
 static int page_found_by_literal(const struct dbpage *d)
 {
 	uint16_t lit[PAT_MAX / 2 + 1];
@@ -913,9 +923,49 @@ static int page_found_by_literal(const struct dbpage *d)
 	return ok;
 }
 
-static const char *klass(const struct pattern *p, const struct dbpage *d)
+/* Does the library's regular expression matcher, called directly on the text
+ * search.c extracts from this page (lower halves left out), find nothing
+ * although the reference matcher does?  Then the page is missed by the matcher,
+ * whatever the page walk does.  Used only to attribute a miss to the known
+ * finding "regex-overlapping-symbols", never to decide what is correct. */
+static int matcher_misses_page(const struct pattern *p, const struct dbpage *d)
 {
-	if (p->regexp && p->overlap && d && page_found_by_literal(d)) return ":regex-overlapping-symbols";
+	static ucs2_t hay[HS_MAX];
+	ucs2_t re[PAT_MAX + 1];
+	ure_buffer_t ub;
+	ure_dfa_t ud;
+	unsigned long ms = 0, me = 0;
+	int i, found;
+	if (!p->regexp || !d->match[1]) return 0;
+	for (i = 0; i < p->n_ure; i++) re[i] = p->ure[i];
+	for (i = 0; i < d->n[1]; i++) hay[i] = d->us[1][i];
+	vf_phase("ure_compile");
+	if (!(ub = ure_buffer_create())) return 0;
+	ud = ure_compile(re, (unsigned long)p->n_ure, p->casefold, ub);
+	if (!ud) { ure_buffer_free(ub); vf_phase("case"); return 0; }
+	vf_phase("ure_exec");
+	found = ure_exec(ud, 0, hay, (unsigned long)d->n[1], &ms, &me);
+	ure_dfa_free(ud);
+	ure_buffer_free(ub);
+	vf_phase("case");
+	return !found;
+}
+
+/* Why may the library legitimately-but-wrongly (known findings) not return a
+ * page the documented contract expects?  0 = no known reason. */
+enum { MISS_UNEXPLAINED, MISS_LOWER_HALF, MISS_OVERLAP };
+static int explain_miss(const struct pattern *p, const struct dbpage *d)
+{
+	/* the match exists only on the lower row of double height/size characters */
+	if (d->match[0] && !d->match[1]) return MISS_LOWER_HALF;
+	/* the expression's symbols overlap, the matcher alone misses this text, and
+	 * the page is found by a literal search for the text that matches */
+	if (p->regexp && p->overlap && matcher_misses_page(p, d) && page_found_by_literal(d)) return MISS_OVERLAP;
+	return MISS_UNEXPLAINED;
+}
+
+static const char *klass(const struct dbpage *d)
+{
 	if (d && d->sent_subno_above_ff) return ":subcode-above-ff";
 	if (d && d->subno0_beside) return ":subno0-beside-subpages";
 	return "";
@@ -943,70 +993,114 @@ static const char *db_str(void)
 	return dbbuf;
 }
 
-/* compare an observed pass (collapsed sequence obs[0..n_obs)) with the expectation.
- * head_opt >= 0: that db page may additionally come first (current page at a
- * direction change).  Returns 1 if equal. */
-static int seq_equal(const int *obs, int n_obs, const int *exp, int n_exp, int head_opt)
+struct walk {
+	int expU[MAXDB], nU;    /* pass order over pages matching with or without the lower half rows */
+	int i, j;               /* where the walk stopped: expU[i] expected at o[j] */
+	int n_lower, n_overlap, first_lower, first_overlap;
+};
+
+/* Walk the observed (collapsed) sequence and the expectation in step.  A page
+ * matching with and without the lower half rows must be at its place, unless
+ * the one other recorded finding (matcher misses this text) explains its
+ * absence - such a page is never returned at all, so passing over it is exact.
+ * A page matching only with the lower halves and absent, or only without them
+ * and present, is the named quirk; the other way round it is what the
+ * documentation says.  complete = 0: the pass was not run to its end, a prefix
+ * is enough.  Returns 1 when everything observed is accounted for. */
+static int walk_pass(const struct pattern *p, unsigned key, int dir, int skip, const int *o, int no, int complete, struct walk *w)
 {
-	if (head_opt >= 0 && n_obs > 0 && obs[0] == head_opt) { obs++; n_obs--; }
-	if (n_obs != n_exp) return 0;
-	return 0 == memcmp(obs, exp, sizeof(int) * (size_t)n_exp);
+	int i, j;
+	w->nU = expected_order(2, key, dir, skip, w->expU);
+	w->n_lower = w->n_overlap = 0; w->first_lower = w->first_overlap = -1;
+	for (i = j = 0; i < w->nU; i++) {
+		const struct dbpage *d = &db[w->expU[i]];
+		int here = j < no && o[j] == w->expU[i];
+		if (j >= no && !complete) break;
+		if (d->match[0] && d->match[1]) {
+			if (here) { j++; continue; }
+			if (explain_miss(p, d) != MISS_OVERLAP) break;
+			if (!w->n_overlap++) w->first_overlap = w->expU[i];
+		} else if (d->match[0]) {
+			if (here) { j++; continue; }                /* found on the lower row: as documented */
+			if (!w->n_lower++) w->first_lower = w->expU[i];
+		} else {
+			if (!here) continue;                        /* as documented */
+			j++;
+			if (!w->n_lower++) w->first_lower = w->expU[i];
+		}
+	}
+	w->i = i; w->j = j;
+	return (i == w->nU || !complete) && j == no;
 }
 
 static void report_pass(const struct pattern *p, const char *what, int pgno, int subno, int dir,
 			const int *obs, int n_obs, int ended_not_found, unsigned key, int skip, int head_opt)
 {
-	int expD[MAXDB], expQ[MAXDB], nD, nQ, i, j, quirk_differs;
-	const int *o = obs; int no = n_obs;
-	nD = expected_order(0, key, dir, skip, expD);
-	nQ = expected_order(1, key, dir, skip, expQ);
-	if (!ended_not_found) {
-		/* pass cut short by the call budget: what was seen must be a prefix */
-		if (head_opt >= 0 && no > 0 && o[0] == head_opt) { o++; no--; }
-		if (no <= nD && !memcmp(o, expD, sizeof(int) * (size_t)no)) return;
-		if (no <= nQ && !memcmp(o, expQ, sizeof(int) * (size_t)no)) return;
-		/* diagnose below as if the pass had continued with the expected rest */
-		o = obs; no = n_obs;
-	}
-	if (ended_not_found && seq_equal(obs, n_obs, expD, nD, head_opt)) return;
-	quirk_differs = (nD != nQ) || memcmp(expD, expQ, sizeof(int) * (size_t)nD);
-	if (ended_not_found && quirk_differs && seq_equal(obs, n_obs, expQ, nQ, head_opt)) {
-		vf_fail("model:C17:Q-lower-half-row-not-searched",
-			"%s from %x.%x dir %+d pattern \"%s\" casefold=%d regexp=%d: documented (\"double height and size characters will match twice, on the upper and lower row\") expects [%s], got [%s]; the difference disappears exactly when the lower halves are left out of the haystack",
-			what, pgno, subno, dir, p->text, p->casefold, p->regexp, seq_str(0, expD, nD), seq_str(1, obs, n_obs));
-		vf_count("quirk_lower_half_explained", 1);
+	static struct walk w;
+	int expD[MAXDB], nD, i, j, k, nU, accounted;
+	const int *o = obs, *expU = w.expU; int no = n_obs;
+	int n_lower, n_overlap, first_lower, first_overlap;
+	nD = expected_order(0, key, dir, skip, expD);       /* the documented expectation */
+	vf_count("passes_compared", 1);
+	vf_count(ended_not_found ? "passes_compared_complete" : "passes_compared_prefix_only", 1);
+	vf_count("matching_pages_expected", nD);
+	for (i = 0; i < nD; i++)
+		if (dir > 0 ? db[expD[i]].key < key : db[expD[i]].key >= key) { vf_count("passes_expected_to_wrap", 1); break; }
+	if (nD == 0) vf_count("passes_expected_empty", 1);
+
+	/* the current page may come first after a direction change */
+	if (head_opt >= 0 && no > 0 && o[0] == head_opt) { o++; no--; }
+
+	accounted = walk_pass(p, key, dir, skip, o, no, ended_not_found, &w);
+	i = w.i; j = w.j; nU = w.nU;
+	n_lower = w.n_lower; n_overlap = w.n_overlap; first_lower = w.first_lower; first_overlap = w.first_overlap;
+	if (accounted) {
+		/* everything observed is accounted for */
+		if (n_overlap) {
+			vf_fail("model:C17:missed-page:regex-overlapping-symbols",
+				"%s from %x.%x dir %+d pattern \"%s\" casefold=%d regexp=%d: %x.%x contains a match but was passed over (%d such page(s)%s); expected [%s] got [%s]; cache [%s]; [overlap-attribution: symbols of the expression overlap, ure_exec called directly on the page text finds no match, a literal search for the matching text finds the page; all other pages in order]",
+				what, pgno, subno, dir, p->text, p->casefold, p->regexp, db[first_overlap].pgno, db[first_overlap].subno, n_overlap,
+				n_lower ? ", further pages differ by the lower half row quirk" : "", seq_str(0, expD, nD), seq_str(1, obs, n_obs), db_str());
+			vf_count("known_overlap_miss_explained", 1);
+		} else if (n_lower) {
+			vf_fail("model:C17:Q-lower-half-row-not-searched",
+				"%s from %x.%x dir %+d pattern \"%s\" casefold=%d regexp=%d: documented (\"double height and size characters will match twice, on the upper and lower row\") expects [%s], got [%s]: %x.%x %s (%d such page(s)); the difference disappears exactly when the lower halves are left out of the haystack",
+				what, pgno, subno, dir, p->text, p->casefold, p->regexp, seq_str(0, expD, nD), seq_str(1, obs, n_obs), db[first_lower].pgno, db[first_lower].subno,
+				db[first_lower].match[0] ? "matches on a lower half row only and is not returned" : "matches only when the lower halves are removed from their row and is returned", n_lower);
+			vf_count("quirk_lower_half_explained", 1);
+		}
 		return;
 	}
-	/* diagnose against the documented expectation */
-	if (head_opt >= 0 && no > 0 && o[0] == head_opt) { o++; no--; }
-	for (i = 0; i < no && i < nD && o[i] == expD[i]; i++) ;
-	if (i < no) {
-		/* o[i] is wrong: spurious, repeated/out of order, or something was skipped */
-		int is_match = db[o[i]].match[0], later = -1, earlier = -1;
-		for (j = i + 1; j < nD; j++) if (expD[j] == o[i]) { later = j; break; }
-		for (j = 0; j < i; j++) if (o[j] == o[i]) { earlier = j; break; }
-		if (!is_match && !db[o[i]].match[1]) {
+
+	/* a divergence no recorded finding explains */
+	if (j < no) {
+		/* o[j] is wrong: spurious, repeated/out of order, or expU[i] was skipped */
+		int later = -1, earlier = -1;
+		for (k = i + 1; k < nU; k++) if (expU[k] == o[j]) { later = k; break; }
+		for (k = 0; k < j; k++) if (o[k] == o[j]) { earlier = k; break; }
+		if (!db[o[j]].match[0] && !db[o[j]].match[1]) {
 			char key_[96];
 			snprintf(key_, sizeof key_, "model:C17:spurious-page%s", (p->regexp && p->overlap) ? ":regex-overlapping-symbols" : "");
 			vf_fail(key_, "%s from %x.%x dir %+d pattern \"%s\" casefold=%d regexp=%d: returned %x.%x which contains no match; expected [%s] got [%s]; cache [%s]",
-				what, pgno, subno, dir, p->text, p->casefold, p->regexp, db[o[i]].pgno, db[o[i]].subno, seq_str(0, expD, nD), seq_str(1, obs, n_obs), db_str());
-		} else if (later >= 0) {
+				what, pgno, subno, dir, p->text, p->casefold, p->regexp, db[o[j]].pgno, db[o[j]].subno, seq_str(0, expD, nD), seq_str(1, obs, n_obs), db_str());
+		} else if (later >= 0 && i < nU) {
 			char key_[96];
-			snprintf(key_, sizeof key_, "model:C17:missed-page%s", klass(p, &db[expD[i]]));
-			vf_fail(key_, "%s from %x.%x dir %+d pattern \"%s\" casefold=%d regexp=%d: %x.%x contains a match but was passed over (skipped %d page(s)); expected [%s] got [%s]; cache [%s]",
-				what, pgno, subno, dir, p->text, p->casefold, p->regexp, db[expD[i]].pgno, db[expD[i]].subno, later - i, seq_str(0, expD, nD), seq_str(1, obs, n_obs), db_str());
+			snprintf(key_, sizeof key_, "model:C17:missed-page%s", klass(&db[expU[i]]));
+			vf_fail(key_, "%s from %x.%x dir %+d pattern \"%s\" casefold=%d regexp=%d: %x.%x contains a match but was passed over (the page returned instead is due %d place(s) later); expected [%s] got [%s]; cache [%s]",
+				what, pgno, subno, dir, p->text, p->casefold, p->regexp, db[expU[i]].pgno, db[expU[i]].subno, later - i, seq_str(0, expD, nD), seq_str(1, obs, n_obs), db_str());
 		} else if (earlier >= 0) {
 			vf_fail("model:C17:page-returned-twice", "%s from %x.%x dir %+d pattern \"%s\": %x.%x returned again in the same pass; expected [%s] got [%s]",
-				what, pgno, subno, dir, p->text, db[o[i]].pgno, db[o[i]].subno, seq_str(0, expD, nD), seq_str(1, obs, n_obs));
+				what, pgno, subno, dir, p->text, db[o[j]].pgno, db[o[j]].subno, seq_str(0, expD, nD), seq_str(1, obs, n_obs));
 		} else {
 			vf_fail("model:C17:wrong-order", "%s from %x.%x dir %+d pattern \"%s\": expected [%s] got [%s]; cache [%s]",
 				what, pgno, subno, dir, p->text, seq_str(0, expD, nD), seq_str(1, obs, n_obs), db_str());
 		}
-	} else if (i < nD && ended_not_found) {
+	} else {
+		/* observations exhausted, pass ended with not-found, expU[i] unexplained */
 		char key_[96];
-		snprintf(key_, sizeof key_, "model:C17:missed-page%s", klass(p, &db[expD[i]]));
+		snprintf(key_, sizeof key_, "model:C17:missed-page%s", klass(&db[expU[i]]));
 		vf_fail(key_, "%s from %x.%x dir %+d pattern \"%s\" casefold=%d regexp=%d: not-found reported although %x.%x contains a match and was not returned; expected [%s] got [%s]; cache [%s]",
-			what, pgno, subno, dir, p->text, p->casefold, p->regexp, db[expD[i]].pgno, db[expD[i]].subno, seq_str(0, expD, nD), seq_str(1, obs, n_obs), db_str());
+			what, pgno, subno, dir, p->text, p->casefold, p->regexp, db[expU[i]].pgno, db[expU[i]].subno, seq_str(0, expD, nD), seq_str(1, obs, n_obs), db_str());
 	}
 }
 
@@ -1077,7 +1171,9 @@ static int run_pass(vbi_search *s, const struct pattern *p, const struct session
 			}
 			if (!check_highlight(pg, &db[idx], p, &a, &b)) return -1;
 			vf_log("  call %d dir %+d: %x.%x occurrence %d..%d\n", calls, dir, pg->pgno, pg->subno, a, b);
+			vf_count("highlights_checked", 1);
 			if (idx == *last_idx && !replace_mode) {
+				vf_count("occurrences_stepped_within_page", 1);
 				/* next occurrence inside the same page: must advance, must not overlap */
 				if (dir > 0 ? a < *last_b : b > *last_a) {
 					vf_fail("model:C17:occurrence-not-advancing", "page %x.%x pattern \"%s\" dir %+d: occurrence %d..%d after %d..%d",
@@ -1311,10 +1407,8 @@ static int run_session(struct vf_rng *r, int shape, long idx)
 			report_pass(&pat, "pass", ss.pgno, ss.subno, ss.dir, obs, n_obs, ended, key, -1, -1);
 		} else if (n_obs >= 0) {
 			/* the part seen so far must be a prefix of the expectation */
-			int expD[MAXDB], nD = expected_order(0, key, ss.dir, -1, expD), expQ[MAXDB], nQ = expected_order(1, key, ss.dir, -1, expQ);
-			int okD = n_obs <= nD && !memcmp(obs, expD, sizeof(int) * (size_t)n_obs);
-			int okQ = n_obs <= nQ && !memcmp(obs, expQ, sizeof(int) * (size_t)n_obs);
-			if (!okD && !okQ) {
+			static struct walk w0;
+			if (!walk_pass(&pat, key, ss.dir, -1, obs, n_obs, 0, &w0)) {
 				/* finish the pass and let the full-pass diagnosis name the fault */
 				n_obs = run_pass(s, &pat, &ss, ss.dir, obs, n_obs, &last_idx, &la, &lb, &ended, 0, 0);
 				if (n_obs >= 0)
